@@ -10,10 +10,16 @@ import (
 	"time"
 
 	jwt "github.com/nats-io/jwt/v2"
+	"github.com/nats-io/nkeys"
 	"verifharness/schema"
 )
 
 func init() { drivers["C12"] = runC12 }
+
+// failingSigner is a key pair whose Sign always fails (a hardware token that is unplugged, say)
+type failingSigner struct{ nkeys.KeyPair }
+
+func (failingSigner) Sign([]byte) ([]byte, error) { return nil, fmt.Errorf("signer unavailable") }
 
 func ownID(cd jwt.ClaimsData) (string, []byte) {
 	cd.ID = ""
@@ -112,6 +118,25 @@ func runC12(c *Ctx) {
 					if e != nil {
 						e.Subject = jwt.Subject(fmt.Sprintf("%s.%d", e.Subject, (n*7)%5*10+n))
 					}
+				}
+			}
+			// every way Encode can fail returns no token: also when everything passes and only the signing step fails
+			if i < 12 {
+				for _, how := range []string{"public-only key", "signer reports an error", "nil key"} {
+					var badKp nkeys.KeyPair
+					switch how {
+					case "public-only key":
+						badKp, _ = nkeys.FromPublicKey(s.pub)
+					case "signer reports an error":
+						badKp = failingSigner{s.kp}
+					}
+					ft, ferr := cl.Encode(badKp)
+					c.sum.ImplChecks++
+					c.sum.Evaluations++
+					if ferr == nil || ft != "" {
+						c.violation("C12: a failed Encode returned a non-empty token (or no error)", map[string]interface{}{"kind": kind, "failure": how, "token": ft, "error": fmt.Sprint(ferr)})
+					}
+					c.count("encode_fails_at_signing")
 				}
 			}
 			before := blankStamps(cl)
